@@ -56,6 +56,9 @@ PINS["diff JVP gives the prepend/append constants"] = ("C02", ["regress/C02/diff
 PINS["sum JVP leaves the initial= constant"] = ("C02", ["regress/C02/sum-initial-jvp.json"])
 PINS["pad JVP keeps the keywords"] = ("C02", ["regress/C02/pad-mode-kwargs-jvp.json"])
 PINS["reshape/ravel rules treat lower-case order"] = ("C02", ["regress/C02/ravel-lowercase-order-jvp.json"])
+PINS["max/min/var/std JVPs also accept a 0-d integer array"] = ("C02", ["regress/C02/chooser-jvp-0d-array-axis.json"])
+PINS["array(x, dtype=complex) VJP returns a real cotangent"] = ("C01", ["regress/C01/array-dtype-complex-real-input.json"])
+PINS["sum(x, dtype=complex) VJP returns a real cotangent"] = ("C01", ["regress/C01/sum-dtype-complex-real-input.json"])
 PINS["clip VJP reduces its cotangent"] = ("C01", ["regress/C01/clip-array-bounds-broadcast.json"])
 PINS["max/min/var/std JVPs accept an axis"] = ("C02", ["regress/C02/chooser-jvp-numpy-int-axis.json"])
 PINS["FFT VJPs recognise a repeated axis"] = ("C01", ["regress/C01/fftn-repeated-axes-mixed-sign.json"])
